@@ -146,6 +146,15 @@ class SolveSeam:
             return d, sol, info
         obj._solve = _solve
 
+    def reset(self, fault):
+        """Start observing a new call on the same object."""
+        self.fault = fault
+        self.entries, self.current = 0, -1
+        self.fired, self.residuals = [], []
+        self.setups = self.reused = 0
+        self.amplitude = 0.0
+        self.captured = None
+
     def note_amplitude(self, matrix, rhs, previous_solution):
         """Largest magnitude that enters the flux recovery u = J^-1 (rhs_u + D^T p) of this call.  The mass
         balance can only hold to eps times this magnitude ('linear-solver precision'), e.g. after an
@@ -169,7 +178,9 @@ class SolveSeam:
         f = self.fault
         if f and f["site"] == site and f["occurrence"] == self.current and not self.fired:
             self.fired.append((site, self.current, f["exc"]))
-            raise make_exc(f["exc"])
+            e = make_exc(f["exc"])
+            e._dsim_injected = True
+            raise e
 
     def record_residual(self, x, b):
         obj = self.obj
@@ -205,8 +216,9 @@ def mass_pair(cfg):
         b[j] = 1.0
         a, b = a.reshape(shape), b.reshape(shape)
     # equal mass, on dyadic rationals so that the sums agree exactly
-    a = np.round(a * 1024) / 1024
-    b = np.round(b * 1024) / 1024
+    sc = float(cfg["pair"].get("scale", 1.0))
+    a = sc * np.round(a * 1024) / 1024
+    b = sc * np.round(b * 1024) / 1024
     diff = a.sum() - b.sum()
     idx = np.unravel_index(int(np.argmax(b + (b > 0))), shape)
     b[idx] += diff
@@ -245,11 +257,16 @@ def make_options(cfg, num_iter=None, form="info"):
         o["return_info"] = True
     elif form == "status":
         o["return_status"] = True
+    if cfg.get("verbose"):
+        o["verbose"] = True
     for k in ("tol_residual", "tol_increment", "tol_distance", "L", "L_init", "regularization"):
         if cfg.get(k) is not None:
             o[k] = cfg[k]
     if cfg["linear_solver"] in ("amg", "cg"):
-        o["amg_options"] = {"max_coarse": cfg.get("max_coarse", 4)}
+        if cfg.get("amg_options") is not None:
+            o["amg_options"] = dict(cfg["amg_options"])       # verbatim user options
+        elif not cfg.get("amg_default"):
+            o["amg_options"] = {"max_coarse": cfg.get("max_coarse", 4)}
         o["linear_solver_options"] = dict(cfg.get("ls_options", {}))
     if cfg["method"] == "bregman-adaptive":
         u = int(cfg.get("update_every", 2))
@@ -272,7 +289,7 @@ def make_ref(cfg) -> RefFV:
 
 
 class RunResult:
-    __slots__ = ("ret", "exc", "seam", "obj", "warned", "clock")
+    __slots__ = ("ret", "exc", "seam", "obj", "warned", "clock", "exc_injected")
 
 
 def run_solver(cfg, fault=None, num_iter=None, form="info", env=None) -> RunResult:
@@ -287,16 +304,30 @@ def run_solver(cfg, fault=None, num_iter=None, form="info", env=None) -> RunResu
         np.random.seed(env["np_seed"] % 2**32)
     try:
         obj = build(cfg, num_iter, form)
-        seam = SolveSeam(obj, fault)
-        a, b = mass_pair(cfg)
-        with warnings.catch_warnings(record=True) as wl:
-            warnings.simplefilter("always")
-            try:
-                rr.ret = obj(make_image(a, cfg), make_image(b, cfg))
-                rr.exc = None
-            except Exception as e:  # a call that raises returns no result
-                rr.ret = None
-                rr.exc = f"{type(e).__name__}"
+        seam = SolveSeam(obj, None)
+        import contextlib
+        import io as _io
+        with contextlib.redirect_stdout(_io.StringIO()):
+            if cfg.get("warm"):
+                # history on the SAME object: an earlier, fault-free distance computation for another pair
+                wa, wb = mass_pair({**cfg, "pair": cfg["warm"]})
+                with warnings.catch_warnings():
+                    warnings.simplefilter("ignore")
+                    try:
+                        obj(make_image(wa, cfg), make_image(wb, cfg))
+                    except Exception:
+                        pass
+            seam.reset(fault)
+            a, b = mass_pair(cfg)
+            with warnings.catch_warnings(record=True) as wl:
+                warnings.simplefilter("always")
+                try:
+                    rr.ret = obj(make_image(a, cfg), make_image(b, cfg))
+                    rr.exc = None
+                except Exception as e:  # a call that raises returns no result
+                    rr.ret = None
+                    rr.exc = f"{type(e).__name__}"
+                    rr.exc_injected = bool(getattr(e, "_dsim_injected", False))
         rr.warned = any("abruptly stopped" in str(w.message) for w in wl)
         rr.seam, rr.obj, rr.clock = seam, obj, clock
         return rr
@@ -508,6 +539,12 @@ class C04Engine(Engine):
             "aa_depth": r.choice([0, 0, 1, 2, 3]), "aa_restart": r.choice([None, None, 2, 3, 4]),
             "pair": {"kind": r.choice(["dense", "dense", "compact", "single"]), "id": r.randint(0, 9999)},
         }
+        if r.random() < 0.3:
+            cfg["pair"]["scale"] = r.choice([8.0, 64.0, 0.125])
+        if r.random() < 0.15:
+            cfg["verbose"] = True
+        if r.random() < 0.3:
+            cfg["warm"] = {"kind": r.choice(["dense", "compact"]), "id": r.randint(0, 9999)}
         if cfg["aa_depth"] == 0:
             cfg["aa_restart"] = None
         if r.random() < 0.4:
@@ -527,6 +564,16 @@ class C04Engine(Engine):
             cfg["max_coarse"] = r.choice([2, 4, 8])
             cfg["ls_options"] = r.choice([{}, {"atol": 1e-10, "rtol": 1e-10}, {"maxiter": 3},
                                           {"atol": 1e-12, "rtol": 1e-12, "maxiter": 200}])
+        if substream(seed, "profile").random() < 0.2:
+            # convergence-focused profile: enough iterations for a stopping criterion to become binding, the distance
+            # criterion in particular (large distances), printing on or off
+            cfg.update(num_iter=r.randint(8, 14), tol_residual=r.choice([1e-2, 1.0, None]),
+                       tol_increment=r.choice([1e-1, 1.0, None]), tol_distance=r.choice([1e-2, 1e-3, 1e-4]),
+                       verbose=r.random() < 0.5, aa_depth=r.choice([0, 0, 2]), aa_restart=None)
+            cfg["pair"] = {"kind": "dense", "id": r.randint(0, 9999), "scale": r.choice([8.0, 64.0])}
+            for k in ("tol_residual", "tol_increment"):
+                if cfg[k] is None:
+                    cfg.pop(k)
         e = substream(seed, "env")
         env = {"tracemalloc": "real" if e.random() < 0.1 else "stub", "np_seed": e.randint(0, 2**31)}
         if e.random() < 0.5:
@@ -619,10 +666,17 @@ class C04Engine(Engine):
             out.counters[f"fault:exc-{f['exc']}"] += 1
             if rr.ret is None:
                 in_loop = 1 <= f["occurrence"] <= (n - 1 if cfg["method"] == "newton" else n - 2)
-                if in_loop:
-                    # an inner step failed inside the iteration: a (non-converged) result must still be returned
+                if in_loop and getattr(rr, "exc_injected", False):
+                    # an inner step failed inside the iteration and the failure itself escaped from the call: a
+                    # (non-converged) result must still be returned
                     out.violate("C04.R", f"inner-failure-escapes:{rr.exc}", step, fault=f, config=cfg,
                                 note="the solve of a loop iteration failed and the call raised instead of returning the last valid iterate")
+                elif in_loop:
+                    # the injected failure was handled, but a later step of the same call failed on its own with the
+                    # last valid iterate (Bregman's final pressure solve is outside the handler) and no result came back
+                    out.violate("C04.R", f"organic-failure-after-handled-failure:{cfg['method'].split('-')[0]}", step,
+                                fault=f, config=cfg, escaped=rr.exc,
+                                note="the failure of a loop iteration was handled, but the call then raised on its own and returned no result")
                 else:
                     # initial Darcy solve or Bregman's final pressure solve: outside the handler, no result returned
                     out.counters["probe:fault-propagated-no-result"] += 1
@@ -709,6 +763,15 @@ class C04Engine(Engine):
         if case.get("env"):
             c = copy.deepcopy(case)
             c["env"] = {}
+            yield c
+        for key in ("warm", "verbose"):
+            if cfg.get(key):
+                c = copy.deepcopy(case)
+                c["config"].pop(key)
+                yield c
+        if cfg["pair"].get("scale"):
+            c = copy.deepcopy(case)
+            c["config"]["pair"].pop("scale")
             yield c
         for key, val in (("aa_depth", 0), ("aa_restart", None), ("weight", None), ("L", None), ("tol_residual", None),
                          ("tol_increment", None), ("tol_distance", None), ("mobility_mode", "CELL_BASED"),
